@@ -297,6 +297,10 @@ Proof.
     + destruct tpl as [c|]; [|reflexivity]. destruct (apply_ooo doc i c replace); [apply IH|reflexivity].
 Qed.
 
+Lemma apply_scripts_of_run h D :
+  as_run ([], None) h = Some (D, None) -> apply_scripts h [] None = Some D.
+Proof. intros H. rewrite apply_scripts_run. unfold html in *. rewrite H. reflexivity. Qed.
+
 Lemma as_run_app a : forall st b,
   as_run st (a ++ b) = match as_run st a with Some st' => as_run st' b | None => None end.
 Proof.
@@ -1368,3 +1372,555 @@ Proof.
 Qed.
 
 End Preserve.
+
+Section Preserve2.
+Variable chk : bool.
+Variable R : html.
+Notation Inv := (OInv chk R).
+
+Lemma oinv_ret d E b x : oret d b x -> Inv E b ->
+  fst (fst x) <> PPanic /\ Inv (E ++ out (fst (fst x))) (snd (fst x)).
+Proof.
+  intros S [Hp [Hca [D [rs [e [Hrun [W [Nd [Ac [Ne [Qk [Fl Mode]]]]]]]]]]]].
+  destruct S; cbn [fst snd out].
+  - rewrite Hp in Hp0. discriminate.
+  - rewrite Hc in Hca. inversion Hca as [|? ? X _]; subst. contradiction.
+  - (* flush before an out-of-order chunk *)
+    split; [discriminate|].
+    set (b1 := set_sync (set_chunks (set_pooo b (pending_ooo b ++ [(g, k)])) rest) []).
+    assert (Tb b = sync_buf b ++ Tb b1) as ET by (unfold Tb, b1; sbg; rewrite Hc; reflexivity).
+    split; [exact Hp|]. split; [rewrite Hc in Hca; inversion Hca; auto|].
+    exists D, rs, e. rewrite <- app_assoc, <- ET.
+    split; [exact Hrun|split; [exact W|split; [exact Nd|split; [exact Ac|split; [exact Ne|
+      split; [|split; [exact Fl|]]]]]]].
+    + eapply qok_perm; [|exact Qk]. unfold Qb, b1. sbg. rewrite Hc. cbn [ooo_of flat_map app].
+      fold (ooo_of rest). rewrite app_assoc. apply Permutation_cons_append.
+    + right. unfold b1. sbg. split; [|intros f0 k0 i0 _ _ t []].
+      destruct Mode as [[EE [ED [l [tail [Sc St]]]]]|[Ns _]].
+      * destruct St as [St|[s [St Sb]]]; [|congruence]. subst tail. rewrite app_nil_r in Sc.
+        rewrite Hc in Sc. destruct l as [|[f0 k0] l]; [discriminate|]. cbn [cof map] in Sc.
+        inversion Sc. unfold nosync. apply payloads_cof.
+      * unfold nosync in *. rewrite Hc in Ns. exact Ns.
+  - (* rotation, Pending *)
+    split; [discriminate|]. rewrite app_nil_r.
+    set (b1 := set_pooo b (rest ++ [(g, k)])).
+    assert (Tb b1 = Tb b) as ET by reflexivity.
+    split; [exact Hp|]. split; [exact Hca|].
+    exists D, rs, e. rewrite ET.
+    split; [exact Hrun|split; [exact W|split; [exact Nd|split; [exact Ac|split; [exact Ne|
+      split; [|split; [exact Fl|]]]]]]].
+    + eapply qok_perm; [|exact Qk]. unfold Qb, b1. sbg. rewrite Ho.
+      apply Permutation_app_head. apply Permutation_cons_append.
+    + destruct Mode as [[EE [ED [l [tail [Sc St]]]]]|[Ns Ht]].
+      * left. split; [auto|split; [auto|]]. exists l, tail. unfold b1. sbg. auto.
+      * right. unfold b1. sbg. split; [auto|]. intros f0 k0 i0 _ _ t Ht'. rewrite Hs in Ht'.
+        contradiction.
+  - (* rotation, flush *)
+    split; [discriminate|].
+    set (b1 := set_sync (set_pooo b (rest ++ [(g, k)])) []).
+    assert (Tb b = sync_buf b ++ Tb b1) as ET by (unfold Tb, b1; sbg; rewrite Hc; reflexivity).
+    split; [exact Hp|]. split; [exact Hca|].
+    exists D, rs, e. rewrite <- app_assoc, <- ET.
+    split; [exact Hrun|split; [exact W|split; [exact Nd|split; [exact Ac|split; [exact Ne|
+      split; [|split; [exact Fl|]]]]]]].
+    + eapply qok_perm; [|exact Qk]. unfold Qb, b1. sbg. rewrite Ho.
+      apply Permutation_app_head. apply Permutation_cons_append.
+    + right. unfold b1. sbg. split; [unfold nosync; rewrite Hc; reflexivity|].
+      intros f0 k0 i0 _ _ t [].
+  - (* None *)
+    split; [discriminate|]. rewrite app_nil_r.
+    split; [exact Hp|]. split; [exact Hca|]. exists D, rs, e.
+    split; [exact Hrun|split; [exact W|split; [exact Nd|split; [exact Ac|split; [exact Ne|
+      split; [exact Qk|split; [exact Fl|exact Mode]]]]]]].
+  - (* last flush *)
+    split; [discriminate|].
+    set (b1 := set_sync b []).
+    assert (Tb b = sync_buf b ++ Tb b1) as ET by (unfold Tb, b1; sbg; rewrite Hc; reflexivity).
+    split; [exact Hp|]. split; [exact Hca|].
+    exists D, rs, e. rewrite <- app_assoc, <- ET.
+    split; [exact Hrun|split; [exact W|split; [exact Nd|split; [exact Ac|split; [exact Ne|
+      split; [exact Qk|split; [exact Fl|]]]]]]].
+    right. unfold b1. sbg. split; [unfold nosync; rewrite Hc; reflexivity|].
+    intros f0 k0 i0 Hin. rewrite Ho in Hin. contradiction.
+  - (* unwrap of a missing closing marker: impossible *)
+    exfalso.
+    destruct (head_region chk b g k rest D rs e Ho Hc W Nd Qk)
+      as [i [F [A [B [ra [rb [Ei [ED [WA [WB [Ers [Nia [Nib [PF Qk']]]]]]]]]]]]]].
+    assert (oid (res_oclo k d) = i) as S1 by (unfold res_oclo; cbn [oid]; rewrite Ei; reflexivity).
+    rewrite S1 in *.
+    assert (Tb b = sync_buf b) as ETb by (unfold Tb; rewrite Hc; cbn; apply app_nil_r).
+    destruct Mode as [[EE [EDT Sh]]|[Ns Ht]].
+    + rewrite ETb in EDT. rewrite <- EDT, ED in Hfc.
+      destruct (region_found A ra B rb i F B WA Nia PF) as [_ [F2 _]]. congruence.
+    + destruct (find_idx_some_in _ _ _ Hfo) as [x [Hx Px]].
+      assert (In (g, k) (pending_ooo b)) as Hg by (rewrite Ho; left; reflexivity).
+      rewrite (Ht g k i Hg Ei x Hx) in Px. discriminate.
+  - (* closing marker before the opening one: impossible *)
+    exfalso.
+    destruct (head_region chk b g k rest D rs e Ho Hc W Nd Qk)
+      as [i [F [A [B [ra [rb [Ei [ED [WA [WB [Ers [Nia [Nib [PF Qk']]]]]]]]]]]]]].
+    assert (oid (res_oclo k d) = i) as S1 by (unfold res_oclo; cbn [oid]; rewrite Ei; reflexivity).
+    rewrite S1 in *.
+    assert (Tb b = sync_buf b) as ETb by (unfold Tb; rewrite Hc; cbn; apply app_nil_r).
+    destruct Mode as [[EE [EDT Sh]]|[Ns Ht]].
+    + rewrite ETb in EDT. rewrite <- EDT, ED in Hfo, Hfc.
+      destruct (region_found A ra B rb i F B WA Nia PF) as [F1 [F2 _]].
+      rewrite F1 in Hfo. rewrite F2 in Hfc. inversion Hfo; subst. inversion Hfc; subst.
+      apply Nat.ltb_lt in Hlt. lia.
+    + destruct (find_idx_some_in _ _ _ Hfo) as [x [Hx Px]].
+      assert (In (g, k) (pending_ooo b)) as Hg by (rewrite Ho; left; reflexivity).
+      rewrite (Ht g k i Hg Ei x Hx) in Px. discriminate.
+Qed.
+
+(** poll_next preserves the invariant, with the emitted chunk appended to the ghost stream *)
+Lemma oinv_poll : forall fuel d b E, Inv E b ->
+  let x := vpoll fuel d b in
+  fst (fst x) <> PPanic /\ Inv (E ++ out (fst (fst x))) (snd (fst x)).
+Proof.
+  intros fuel d b.
+  apply (poll_ind_gen clo oclo res_clo res_oclo d (fun b x => forall E, Inv E b ->
+    fst (fst x) <> PPanic /\ Inv (E ++ out (fst (fst x))) (snd (fst x)))).
+  - intros b0 x S E I. apply (oinv_ret d E b0 x S I).
+  - intros b0 b1 x S IH E I. apply IH. eapply oinv_step; eauto.
+  - intros b0 E I. cbn [fst snd out]. rewrite app_nil_r. split; [discriminate|exact I].
+Qed.
+
+End Preserve2.
+
+(* ------------------------------------------------------------------ the initial state *)
+From LV Require Import Base.Sexp Html.StreamRun.
+Local Open Scope nat_scope.
+
+Lemma ooo_of_app_sync l t : ooo_of (cof l ++ [CSync t]) = l.
+Proof. rewrite ooo_of_app, ooo_of_cof. cbn. apply app_nil_r. Qed.
+
+Lemma sprefix_length i j : sprefix i j -> length i < length j.
+Proof.
+  intros [s [Hs E]]. subst j. rewrite app_length. destruct s; [congruence|simpl; lia].
+Qed.
+
+Lemma oinv_init chk d v : wf_ooo v = true ->
+  (chk = true -> pf true false d v FirstChild = true) ->
+  OInv chk (fst (resolved v FirstChild)) [] (stream_of true d v).
+Proof.
+  intros W PF. unfold stream_of.
+  set (b0 := sb_new (Some [0%N]) : vsb).
+  assert ([0%N] <> []) as Hn by discriminate.
+  destruct (render_ooo_spec chk d v W b0 [0%N] FirstChild FirstChild eq_refl Hn (peq_refl _) PF)
+    as [t [ks [rs [hi [A1 [A2 [A3 [A4 [A5 A6]]]]]]]]].
+  pose proof (render_keeps true d v b0 FirstChild) as [Kp Ko].
+  set (b1 := fst (render true d v b0 FirstChild)) in *.
+  cbn [sync_buf chunks b0 sb_new app] in A1, A2.
+  assert (pending (finish b1) = None) as Ep
+    by (unfold finish; destruct (is_nil _); cbn [pending set_sync set_chunks]; rewrite Kp; reflexivity).
+  assert (pending_ooo (finish b1) = []) as Eo
+    by (unfold finish; destruct (is_nil _); cbn [pending_ooo set_sync set_chunks]; rewrite Ko; reflexivity).
+  assert (chunks (finish b1) = if is_nil t then cof ks else cof ks ++ [CSync t]) as Ec.
+  { unfold finish. rewrite A1. destruct (is_nil t) eqn:En; cbn [chunks set_sync set_chunks].
+    - exact A2.
+    - rewrite A2. apply push_last_cof. }
+  assert (Tb (finish b1) = t) as ET.
+  { unfold Tb. rewrite finish_sync, Ec. destruct (is_nil t) eqn:En.
+    - apply is_nil_true in En. rewrite payloads_cof, En. reflexivity.
+    - rewrite payloads_app, payloads_cof. cbn. apply app_nil_r. }
+  assert (Qb (finish b1) = ks) as EQ.
+  { unfold Qb. rewrite Eo, Ec, app_nil_r. destruct (is_nil t); [apply ooo_of_cof|apply ooo_of_app_sync]. }
+  split; [exact Ep|]. split.
+  { rewrite Ec. destruct (is_nil t); [apply nocasync_cof|].
+    apply Forall_app. split; [apply nocasync_cof|constructor; [exact I|constructor]]. }
+  exists t, rs, (env_of ks rs). rewrite ET, EQ. cbn [app].
+  split; [rewrite as_run_notpl by (eapply wfd_notpl; eauto); reflexivity|].
+  split; [exact A4|]. split; [eapply numbered_nodup; eauto|].
+  split.
+  { intros i j Hi Hj S. apply sprefix_length in S.
+    destruct (numbered_ids _ _ _ _ _ _ A5 i Hi) as [a [_ Ea]].
+    destruct (numbered_ids _ _ _ _ _ _ A5 j Hj) as [c [_ Ec']]. subst.
+    rewrite !bump_length in S. lia. }
+  split.
+  { intros i Hi. destruct (numbered_ids _ _ _ _ _ _ A5 i Hi) as [a [_ Ea]]. subst.
+    apply bump_nonempty. exact Hn. }
+  split.
+  { constructor.
+    - intros f k Hin. destruct (numbered_clo _ _ _ _ _ _ Hn A5 f k Hin) as [j [F [_ [B1 [B2 [B3 B4]]]]]].
+      exists (bump j [0%N]), F. auto.
+    - apply (numbered_reg _ _ _ _ _ _ A5).
+    - rewrite (numbered_kids _ _ _ _ _ _ A5). apply nodup_map_some. eapply numbered_nodup; eauto. }
+  split; [intros C; apply (A6 C)|].
+  left. split; [reflexivity|split; [reflexivity|]].
+  destruct (is_nil t) eqn:En.
+  - exists ks, []. rewrite Ec, app_nil_r. auto.
+  - exists ks, [CSync t]. rewrite Ec. split; [reflexivity|]. right. exists t. split; [reflexivity|].
+    apply finish_sync.
+Qed.
+
+(* ------------------------------------------------------------------ the end of the stream *)
+Lemma oinv_done chk R E (b : vsb) :
+  OInv chk R E b -> chunks b = [] -> pending_ooo b = [] -> sync_buf b = [] ->
+  exists D, as_run ([], None) E = Some (D, None) /\ plain D /\ (chk = true -> D = R).
+Proof.
+  intros [Hp [Hca [D [rs [e [Hrun [W [Nd [Ac [Ne [Qk [Fl Mode]]]]]]]]]]]] Hc Ho Hs.
+  assert (Tb b = []) as ET by (unfold Tb; rewrite Hc, Hs; reflexivity).
+  assert (rs = []) as Ers.
+  { destruct rs as [|[i F] rs]; auto. destruct (q_reg _ _ _ _ Qk i F (or_introl eq_refl)) as [f [k [Hin _]]].
+    unfold Qb in Hin. rewrite Hc, Ho in Hin. destruct Hin. }
+  subst rs. rewrite ET, app_nil_r in Hrun.
+  assert (plain D) as PD.
+  { clear -W. remember [] as rs0 eqn:Er. induction W as [|x l rs0 W IH|].
+    - constructor.
+    - constructor; [exact I|apply IH; exact Er].
+    - discriminate. }
+  exists D. split; [exact Hrun|split; [exact PD|]].
+  intros C. rewrite <- (Fl C). symmetry. apply fill_plain. exact PD.
+Qed.
+
+(** an exhausted stream: nothing buffered, queued or pending *)
+Definition exhausted (b : vsb) : Prop :=
+  chunks b = [] /\ pending b = None /\ pending_ooo b = [] /\ sync_buf b = [].
+
+Lemma poll_none_exhausted : forall fuel d (b : vsb),
+  fst (fst (vpoll fuel d b)) = PNone -> exhausted (snd (fst (vpoll fuel d b))).
+Proof.
+  intros fuel d b.
+  apply (poll_ind_gen clo oclo res_clo res_oclo d (fun b x =>
+    fst (fst x) = PNone -> exhausted (snd (fst x)))).
+  - intros b0 x S E. destruct S; cbn [fst snd] in *; try discriminate. unfold exhausted. auto.
+  - intros b0 b1 x S IH. exact IH.
+  - intros b0 E. discriminate.
+Qed.
+
+Lemma poll_exhausted fuel d (b : vsb) : exhausted b -> vpoll (S fuel) d b = (PNone, b, None).
+Proof.
+  intros [Hc [Hp [Ho Hs]]]. cbn [vpoll poll_next]. rewrite Hp, Hc, Ho, Hs. reflexivity.
+Qed.
+
+(* ------------------------------------------------------------------ runs of the out-of-order stream *)
+Notation vrs := (run_state clo oclo).
+Notation vspoll := (step_poll clo oclo res_clo res_oclo).
+
+Section OooRuns.
+Variable chk : bool.
+Variable R : html.
+Notation Inv := (OInv chk R).
+
+Definition eok (s : vrs) : Prop := rs_ended s = true -> exhausted (rs_sb s).
+
+Lemma spoll_oinv fuel s E : Inv E (rs_sb s) -> eok s ->
+  Inv (E ++ somes [obs_of (snd (vspoll fuel s))]) (rs_sb (fst (vspoll fuel s)))
+  /\ eok (fst (vspoll fuel s)) /\ snd (vspoll fuel s) <> PPanic.
+Proof.
+  intros I Ek. rewrite (spoll_eq clo oclo res_clo res_oclo). cbv zeta. cbn [fst snd rs_sb rs_ended].
+  pose proof (oinv_poll chk R fuel (dn clo oclo s) (rs_sb s) E I) as OP.
+  pose proof (poll_none_exhausted fuel (dn clo oclo s) (rs_sb s)) as PN.
+  unfold vpoll in *. cbv zeta in OP.
+  destruct OP as [Np I']. rewrite out_obs. split; [exact I'|split; [|exact Np]].
+  unfold eok. cbn [rs_ended rs_sb]. intros En.
+  destruct (fst (fst (poll_next clo oclo res_clo res_oclo fuel (dn clo oclo s) (rs_sb s)))) eqn:Er;
+    try (apply PN; reflexivity);
+    (specialize (Ek En); destruct fuel as [|fuel];
+     [cbn [poll_next snd fst] in *; exact Ek
+     |pose proof (poll_exhausted fuel (dn clo oclo s) _ Ek) as PE; unfold vpoll in PE;
+      rewrite PE in Er; cbn [fst] in Er; discriminate]).
+Qed.
+
+Lemma run_events_oinv fuel : forall ev s E, Inv E (rs_sb s) -> eok s ->
+  let x := run_events clo oclo res_clo res_oclo fuel ev s in
+  Inv (E ++ somes (snd x)) (rs_sb (fst x)) /\ eok (fst x).
+Proof.
+  induction ev as [|[f|] ev IH]; intros s E I Ek; cbn [run_events].
+  - cbn [fst snd somes flat_map]. rewrite app_nil_r. auto.
+  - destruct (step_complete clo oclo f s) as [s1 w] eqn:Ec.
+    assert (rs_sb s1 = rs_sb s /\ rs_ended s1 = rs_ended s) as [Esb Een].
+    { unfold step_complete in Ec. destruct (memf f (rs_done s)); inversion Ec; auto. }
+    assert (Inv E (rs_sb s1)) as I1 by (rewrite Esb; auto).
+    assert (eok s1) as E1 by (unfold eok; rewrite Esb, Een; auto).
+    specialize (IH s1 E I1 E1). destruct (run_events clo oclo res_clo res_oclo fuel ev s1) as [s2 l].
+    cbn [fst snd] in *. exact IH.
+  - destruct (spoll_oinv fuel s E I Ek) as [I1 [E1 _]].
+    destruct (vspoll fuel s) as [s1 r]. cbn [fst snd] in *.
+    specialize (IH s1 _ I1 E1). destruct (run_events clo oclo res_clo res_oclo fuel ev s1) as [s2 l].
+    cbn [fst snd] in *. destruct IH as [A B]. split; [|exact B].
+    rewrite <- app_assoc in A. rewrite <- somes_app in A. exact A.
+Qed.
+
+Lemma drain_oinv fuel : forall n s E, Inv E (rs_sb s) -> eok s ->
+  let x := drain clo oclo res_clo res_oclo fuel n s in
+  Inv (E ++ somes (snd x)) (rs_sb (fst x)) /\ eok (fst x).
+Proof.
+  induction n as [|n IH]; intros s E I Ek; cbn [drain]; destruct (rs_ended s) eqn:En;
+    try (cbn [fst snd somes flat_map]; rewrite app_nil_r; auto; fail).
+  destruct (spoll_oinv fuel s E I Ek) as [I1 [E1 _]].
+  destruct (vspoll fuel s) as [s1 r]. cbn [fst snd] in *.
+  specialize (IH s1 _ I1 E1). destruct (drain clo oclo res_clo res_oclo fuel n s1) as [s2 l].
+  cbn [fst snd] in *. destruct IH as [A B]. split; [|exact B].
+  rewrite <- app_assoc in A. rewrite <- somes_app in A. exact A.
+Qed.
+
+Lemma run_task_oinv fuel : forall n s E, Inv E (rs_sb s) -> eok s ->
+  let x := run_task clo oclo res_clo res_oclo fuel n s in
+  Inv (E ++ somes (snd x)) (rs_sb (fst x)) /\ eok (fst x).
+Proof.
+  induction n as [|n IH]; intros s E I Ek; cbn [run_task].
+  - cbn [fst snd somes flat_map]. rewrite app_nil_r. auto.
+  - destruct (spoll_oinv fuel s E I Ek) as [I1 [E1 _]].
+    destruct (vspoll fuel s) as [s1 r]. cbn [fst snd] in *.
+    destruct r as [|x| | |]; try (cbn [fst snd]; auto; fail).
+    specialize (IH s1 _ I1 E1). destruct (run_task clo oclo res_clo res_oclo fuel n s1) as [s2 l].
+    cbn [fst snd] in *. destruct IH as [A B]. split; [|exact B].
+    rewrite <- app_assoc in A. rewrite <- somes_app in A. exact A.
+Qed.
+
+Lemma run_exec_oinv fuel n : forall order s E, Inv E (rs_sb s) -> eok s ->
+  let x := run_exec clo oclo res_clo res_oclo fuel n order s in
+  Inv (E ++ somes (snd x)) (rs_sb (fst x)) /\ eok (fst x).
+Proof.
+  induction order as [|f order IH]; intros s E I Ek; cbn [run_exec].
+  - destruct (rs_ended s); cbn [fst snd somes flat_map]; rewrite app_nil_r; auto.
+  - destruct (memf f (rs_done s)) eqn:Md; [apply IH; auto|].
+    destruct (step_complete clo oclo f s) as [s1 w] eqn:Ec.
+    assert (rs_sb s1 = rs_sb s /\ rs_ended s1 = rs_ended s) as [Esb Een].
+    { unfold step_complete in Ec. rewrite Md in Ec. inversion Ec; auto. }
+    assert (Inv E (rs_sb s1)) as I1 by (rewrite Esb; auto).
+    assert (eok s1) as E1 by (unfold eok; rewrite Esb, Een; auto).
+    destruct ((0 <? w)%N && negb (rs_ended s1)).
+    + pose proof (run_task_oinv fuel n s1 E I1 E1) as RT.
+      destruct (run_task clo oclo res_clo res_oclo fuel n s1) as [s2 l1]. cbn [fst snd] in RT.
+      destruct RT as [I2 E2].
+      specialize (IH s2 _ I2 E2). destruct (run_exec clo oclo res_clo res_oclo fuel n order s2) as [s3 l2].
+      cbn [fst snd] in *. destruct IH as [A B]. split; [|exact B].
+      change (OWake w :: l1 ++ l2) with ([OWake w] ++ l1 ++ l2).
+      rewrite !somes_app. cbn [somes flat_map app]. rewrite app_assoc. exact A.
+    + specialize (IH s1 E I1 E1). destruct (run_exec clo oclo res_clo res_oclo fuel n order s1) as [s3 l2].
+      cbn [fst snd] in *. exact IH.
+Qed.
+
+End OooRuns.
+
+(* ------------------------------------------------------------------ theorems *)
+Notation vgood := (good clo oclo wclo woclo fclo foclo).
+Notation vphi := (phi clo oclo wclo woclo).
+
+Section OooTheorems.
+Variable chk : bool.
+Variable v : view.
+Variable init : list fid.
+Variable n : nat.
+Hypothesis Hn : poll_fuel v <= n.
+Hypothesis Hw : wf_ooo v = true.
+Hypothesis Hk : chk = true -> known_class true init v = false.
+
+Let R := fst (resolved v FirstChild).
+Let F := futures_of v.
+Let fuel := poll_fuel v.
+Let s0 := init_state true init v.
+Definition SInv (b : vsb) : Prop := exists E, OInv chk R E b.
+
+Lemma ooo_pf : chk = true -> pf true false (mem init) v FirstChild = true.
+Proof.
+  intros C. specialize (Hk C). unfold known_class in Hk.
+  destruct (pf _ _ _ _ _); simpl in Hk; congruence.
+Qed.
+
+Lemma ooo_init : OInv chk R [] (rs_sb s0).
+Proof. unfold s0, init_state. cbn [rs_sb]. apply oinv_init; [exact Hw|apply ooo_pf]. Qed.
+
+Lemma sinv_poll : forall fuel d (b : vsb), SInv b ->
+  SInv (snd (fst (vpoll fuel d b))) /\ fst (fst (vpoll fuel d b)) <> PPanic.
+Proof.
+  intros fl d b [E I]. destruct (oinv_poll chk R fl d b E I) as [A B]. split; [eexists; eauto|auto].
+Qed.
+
+Lemma ooo_good0 : vgood SInv F fuel n s0.
+Proof.
+  constructor.
+  - exists []. apply ooo_init.
+  - unfold s0, init_state. cbn [rs_sb]. apply stream_of_f.
+  - unfold s0, init_state. cbn [rs_sb].
+    pose proof (stream_of_mu true (fun f => memf f init) v). unfold fuel. lia.
+  - unfold s0, init_state. cbn [rs_sb].
+    pose proof (stream_of_mu true (fun f => memf f init) v). lia.
+Qed.
+
+Lemma eok0 : eok s0.
+Proof. unfold eok, s0, init_state. cbn [rs_ended]. discriminate. Qed.
+
+(** the literal drive: the stream ends, nothing goes wrong, and the browser's document after all
+    scripts is plain HTML — the resolved render when [chk] *)
+Lemma ooo_free ev :
+  let l := run_free n true v init ev in
+  (exists D, apply_scripts (somes l) [] None = Some D /\ plain D /\ (chk = true -> D = R))
+  /\ In ONone l /\ clean l.
+Proof.
+  cbv zeta. unfold run_free. fold fuel. fold s0.
+  pose proof ooo_good0 as G0. pose proof ooo_init as I0. pose proof eok0 as K0.
+  pose proof (run_events_oinv chk R fuel ev s0 [] I0 K0) as RE.
+  pose proof (run_events_good clo oclo res_clo res_oclo wclo woclo res_clo_w res_oclo_w
+                fclo foclo res_clo_f res_oclo_f SInv sinv_poll F fuel n ev s0 G0) as RG.
+  destruct (run_events clo oclo res_clo res_oclo fuel ev s0) as [s1 l1]. cbn [fst snd app] in *.
+  destruct RE as [I1 K1]. destruct RG as [G1 [D1 [CL1 EN1]]].
+  pose proof (complete_all_good clo oclo wclo woclo fclo foclo SInv F fuel n
+                (sort_N (futures_of v)) s1 G1) as CA.
+  destruct (complete_all clo oclo (sort_N (futures_of v)) s1) as [s2 l2]. cbn [fst snd] in *.
+  destruct CA as [G2 [D2 [Esb [Een [S2 CL2]]]]].
+  assert (all_done clo oclo F s2) as AD.
+  { intros f Hf. apply D2. left. apply sort_N_in. exact Hf. }
+  assert (vphi (rs_sb s2) < n) as Hp.
+  { pose proof (phi_le clo oclo wclo woclo (rs_sb s2)). pose proof (g_n _ _ _ _ _ _ _ _ _ _ _ G2). lia. }
+  pose proof (drain_terminates clo oclo res_clo res_oclo wclo woclo res_clo_w res_oclo_w
+                fclo foclo res_clo_f res_oclo_f SInv sinv_poll F fuel n n s2 G2 AD Hp) as DT.
+  assert (OInv chk R (somes l1) (rs_sb s2)) as I2 by (rewrite Esb; auto).
+  assert (eok s2) as K2 by (unfold eok; rewrite Esb, Een; auto).
+  pose proof (drain_oinv chk R fuel n s2 (somes l1) I2 K2) as DI.
+  destruct (drain clo oclo res_clo res_oclo fuel n s2) as [s3 l3]. cbn [fst snd] in *.
+  destruct DT as [En3 [G3 [Len3 [L3 N3]]]]. destruct DI as [I3 K3].
+  destruct (K3 En3) as [Xc [Xp [Xo Xs]]].
+  destruct (oinv_done chk R _ _ I3 Xc Xo Xs) as [D [Hr [PD HD]]].
+  split; [|split].
+  - exists D. rewrite !somes_app, S2. cbn [app]. split; [apply apply_scripts_of_run; exact Hr|auto].
+  - rewrite !in_app_iff. destruct (rs_ended s2) eqn:En2.
+    + symmetry in Een. destruct (EN1 Een) as [X|X]; [|auto].
+      unfold s0, init_state in X. cbn [rs_ended] in X. discriminate.
+    + right. right. apply N3. reflexivity.
+  - apply clean_app; [auto|apply clean_app; [auto|]].
+    intros o Ho. destruct (L3 o Ho) as [X|[x X]]; subst; repeat split; discriminate.
+Qed.
+
+(** the executor drive *)
+Lemma ooo_exec ev :
+  let l := run_executor n true v init ev in
+  (exists D, apply_scripts (somes l) [] None = Some D /\ plain D /\ (chk = true -> D = R))
+  /\ In ONone l /\ clean l.
+Proof.
+  cbv zeta. unfold run_executor. fold fuel. fold s0.
+  pose proof ooo_good0 as G0. pose proof ooo_init as I0. pose proof eok0 as K0.
+  assert (vphi (rs_sb s0) < n) as Hp.
+  { pose proof (phi_le clo oclo wclo woclo (rs_sb s0)). pose proof (g_n _ _ _ _ _ _ _ _ _ _ _ G0). lia. }
+  pose proof (run_task_parked clo oclo res_clo res_oclo wclo woclo res_clo_w res_oclo_w
+                fclo foclo res_clo_f res_oclo_f SInv sinv_poll F fuel n n s0 G0 Hp) as RT.
+  pose proof (run_task_oinv chk R fuel n s0 [] I0 K0) as TI.
+  destruct (run_task clo oclo res_clo res_oclo fuel n s0) as [s1 l1]. cbn [fst snd app] in *.
+  destruct RT as [P1 [G1 [D1 [L1 N1]]]]. destruct TI as [I1 K1].
+  assert (forall f, In f F ->
+            In f (completes ev ++ sort_N (futures_of v)) \/ memf f (rs_done s1) = true) as Hall.
+  { intros f Hf. left. apply in_app_iff. right. apply sort_N_in. exact Hf. }
+  pose proof (run_exec_ends clo oclo res_clo res_oclo wclo woclo res_clo_w res_oclo_w
+                fclo foclo res_clo_f res_oclo_f SInv sinv_poll F fuel n
+                (completes ev ++ sort_N (futures_of v)) s1 G1 P1 Hall) as RE.
+  pose proof (run_exec_oinv chk R fuel n (completes ev ++ sort_N (futures_of v)) s1 (somes l1) I1 K1) as EI.
+  destruct (run_exec clo oclo res_clo res_oclo fuel n (completes ev ++ sort_N (futures_of v)) s1)
+    as [s2 l2]. cbn [fst snd] in *.
+  destruct RE as [En [L2 N2]]. destruct EI as [I2 K2].
+  destruct (K2 En) as [Xc [Xp [Xo Xs]]].
+  destruct (oinv_done chk R _ _ I2 Xc Xo Xs) as [D [Hr [PD HD]]].
+  split; [|split].
+  - exists D. rewrite somes_app. split; [apply apply_scripts_of_run; exact Hr|auto].
+  - apply in_app_iff. destruct N2 as [N2|N2]; [|auto].
+    destruct (N1 N2) as [X|X]; [|auto]. unfold s0, init_state in X. cbn [rs_ended] in X. discriminate.
+  - intros o Ho. apply in_app_iff in Ho. destruct Ho as [Ho|Ho].
+    + destruct (L1 o Ho) as [X|[X|[x X]]]; subst; repeat split; discriminate.
+    + destruct (L2 o Ho) as [X|[X|[[x X]|[w X]]]]; subst; repeat split; discriminate.
+Qed.
+
+(** at every moment of every run the browser's document (with what is buffered) is the resolved
+    render in which exactly the still unresolved boundaries show their fallback *)
+Lemma ooo_prefix ev :
+  let x := run_events clo oclo res_clo res_oclo fuel ev s0 in
+  exists D rs e,
+    apply_scripts (somes (snd x) ++ Tb (rs_sb (fst x))) [] None = Some D
+    /\ wfd D rs /\ NoDup (rids rs)
+    /\ (forall i F0, In (i, F0) rs -> exists f k, In (f, k) (Qb (rs_sb (fst x))) /\ o_id k = Some i)
+    /\ (forall f k, In (f, k) (Qb (rs_sb (fst x))) -> exists i F0, o_id k = Some i /\ In (i, F0) rs)
+    /\ (chk = true -> fill e None D = R).
+Proof.
+  cbv zeta.
+  pose proof (run_events_oinv chk R fuel ev s0 [] ooo_init eok0) as [I _].
+  destruct (run_events clo oclo res_clo res_oclo fuel ev s0) as [s1 l1]. cbn [fst snd app] in *.
+  destruct I as [_ [_ [D [rs [e [Hrun [W [Nd [_ [_ [Qk [Fl _]]]]]]]]]]]].
+  exists D, rs, e.
+  split; [apply apply_scripts_of_run; exact Hrun|
+          split; [exact W|split; [exact Nd|split; [apply Qk|split; [|exact Fl]]]]].
+  intros f k Hin. destruct (q_clo _ _ _ _ Qk f k Hin) as [i [F0 [A [B _]]]]. eauto.
+Qed.
+
+End OooTheorems.
+
+(* ------------------------------------------------------------------ statements for Properties_C07 *)
+(** F-C07-a aside, after all replacement scripts have run the out-of-order stream is the resolved
+    render — for every well-formed view and every schedule *)
+Theorem ooo_after_scripts_free v init n ev :
+  poll_fuel v <= n -> wf_ooo v = true -> known_class true init v = false ->
+  let l := run_free n true v init ev in
+  apply_scripts (somes l) [] None = Some (fst (resolved v FirstChild)) /\ In ONone l /\ clean l.
+Proof.
+  intros Hn Hw Hk. cbv zeta.
+  destruct (ooo_free true v init n Hn Hw (fun _ => Hk) ev) as [[D [A [_ B]]] [C1 C2]].
+  rewrite (B eq_refl) in A. auto.
+Qed.
+
+Theorem ooo_after_scripts_exec v init n ev :
+  poll_fuel v <= n -> wf_ooo v = true -> known_class true init v = false ->
+  let l := run_executor n true v init ev in
+  apply_scripts (somes l) [] None = Some (fst (resolved v FirstChild)) /\ In ONone l /\ clean l.
+Proof.
+  intros Hn Hw Hk. cbv zeta.
+  destruct (ooo_exec true v init n Hn Hw (fun _ => Hk) ev) as [[D [A [_ B]]] [C1 C2]].
+  rewrite (B eq_refl) in A. auto.
+Qed.
+
+(** for EVERY well-formed view (F-C07-a included): the stream ends, no panic, no stall, and every
+    replacement script finds its markers — what remains is plain HTML without any marker *)
+Theorem ooo_always_sound v init n ev :
+  poll_fuel v <= n -> wf_ooo v = true ->
+  (let l := run_free n true v init ev in
+   (exists D, apply_scripts (somes l) [] None = Some D /\ plain D) /\ In ONone l /\ clean l)
+  /\ (let l := run_executor n true v init ev in
+      (exists D, apply_scripts (somes l) [] None = Some D /\ plain D) /\ In ONone l /\ clean l).
+Proof.
+  intros Hn Hw. assert (false = true -> known_class true init v = false) as Hk by discriminate.
+  split; cbv zeta.
+  - destruct (ooo_free false v init n Hn Hw Hk ev) as [[D [A [B _]]] [C1 C2]]. eauto.
+  - destruct (ooo_exec false v init n Hn Hw Hk ev) as [[D [A [B _]]] [C1 C2]]. eauto.
+Qed.
+
+(** each boundary shows its fallback until it is replaced: at every moment of every run, what the
+    browser has (plus what is still buffered) is a document whose fallback regions are exactly the
+    unresolved chunks, and filling those regions with their final content gives the resolved render *)
+Theorem ooo_fallback_until_replaced v init ev :
+  wf_ooo v = true -> known_class true init v = false ->
+  let x := run_events clo oclo res_clo res_oclo (poll_fuel v) ev (init_state true init v) in
+  exists D rs e,
+    apply_scripts (somes (snd x) ++ Tb (rs_sb (fst x))) [] None = Some D
+    /\ wfd D rs /\ NoDup (rids rs)
+    /\ (forall i F0, In (i, F0) rs -> exists f k, In (f, k) (Qb (rs_sb (fst x))) /\ o_id k = Some i)
+    /\ (forall f k, In (f, k) (Qb (rs_sb (fst x))) -> exists i F0, o_id k = Some i /\ In (i, F0) rs)
+    /\ fill e None D = fst (resolved v FirstChild).
+Proof.
+  intros Hw Hk. cbv zeta.
+  destruct (ooo_prefix true v init Hw (fun _ => Hk) ev) as [D [rs [e [A [B [C [D1 [D2 D3]]]]]]]].
+  exists D, rs, e. repeat split; auto.
+Qed.
+
+Definition witness_ooo : view :=
+  VElem 0%N (VTuple [VElem 1%N (VText [108%N]); VSuspend 1%N (VText [109%N]); VText [114%N]]).
+
+(** <div>(<p>l</p>, Suspend(pending -> "m"), "r")</div>: the out-of-order stream leaves
+    <div><p>l</p>mr</div>, the resolved render is <div><p>l</p>m<!>r</div> *)
+Lemma ooo_after_scripts_refuted :
+  exists v init ev, wf_ooo v = true /\
+    apply_scripts (somes (run_free (poll_fuel v) true v init ev)) [] None
+    <> Some (fst (resolved v FirstChild)).
+Proof.
+  exists witness_ooo, [], [EPoll; EComplete 1%N; EPoll]. split; [reflexivity|].
+  vm_compute. intros H. discriminate H.
+Qed.
+
+Example known_class_witness_ooo : known_class true [] witness_ooo = true.
+Proof. reflexivity. Qed.
+
+Example ooo_nonvacuous :
+  let v := VElem 0%N (VTuple [VElem 1%N (VText [97%N]);
+                              VBoundary 1%N (VElem 2%N (VText [76%N]))
+                                (VTuple [VElem 3%N (VText [67%N]);
+                                         VSuspend 2%N (VElem 1%N (VText [105%N]))]) true;
+                              VSuspend 3%N (VElem 2%N (VText [121%N]))]) in
+  wf_ooo v = true /\ known_class true [] v = false /\ futures_of v = [1%N; 2%N; 3%N].
+Proof. repeat split; reflexivity. Qed.
